@@ -10,7 +10,16 @@ for d in $wt/out/*/; do
   [ -f $d/patch.diff ] || continue
   dest=/verif/seeded/$prop-$k; mkdir -p $dest
   cp $d/patch.diff $d/demo.diff $dest/ 2>/dev/null; cp $d/notes.md $dest/ 2>/dev/null
-  f=$(grep -oE "^\+\s*(async )?fn [a-zA-Z_0-9]+" $d/demo.diff | head -1 | sed -E 's/.*fn //')
+  f=$(python3 - "$d/demo.diff" <<'PY'
+import re,sys
+lines=open(sys.argv[1]).read().split("\n")
+for i,l in enumerate(lines):
+    if re.match(r"^\+\s*#\[(tokio::)?test", l):
+        for m in lines[i+1:i+4]:
+            mm=re.search(r"fn ([A-Za-z_0-9]+)", m)
+            if mm: print(mm.group(1)); sys.exit(0)
+PY
+)
   echo "=== $prop seed $k (demo test: $f)"
   conf=$(/verif/tools/confirm_seed.sh $wt $d/patch.diff $d/demo.diff "$f" 2>&1)
   echo "$conf"
